@@ -33,6 +33,7 @@ let handle (toks : string list) : (string * string * string) option =
         | "stru" -> fin alloc (vrun sc (cv_string_unique (ni w) (ni off)) m0 O)
         | "strs" -> fin alloc (vrun sc (cv_string_std (ni w) (ni off)) m0 O)
         | "cmda" -> fin alloc (vrun sc (cmda (ni w) (ni off) (ni a)) m0 O)
+        | "arrv" -> fin (fun _ -> "") (vrun sc (cv_value (ni (4 * a)) (ni off)) m0 O)      (* cv.arr.read ; one read of the 4-element image ; cv.arr.verifier *)
         | "structv" -> fin (fun _ -> "") (vrun sc (cv_value (ni 8) (ni off)) m0 O)      (* cv.structval.read ; one read of the image ; cv.structval.verifier *)
         | "ptrc" ->
           (* representation r designates window offset r - (2^32 - w) *)
